@@ -111,6 +111,9 @@ def check(P, R):
         tr = enclosing(c, ast.Try)
         guarded_try = tr is not None and any(h.type is None or 'ValueError' in src(h.type) or src(h.type) == 'Exception' for h in tr.handlers)
         guarded_stmt = enclosing(c, ast.If) is not None
+        if ns_ and isinstance(c.args[0], ast.Name):
+            # `if not raw: return -1` in front of the conversion
+            guarded_stmt = guarded_stmt or any(holds_ and src(e_) in (c.args[0].id, src(a)) for (e_, holds_, _t) in T.guard_atoms(cl, ns_[0]))
         raw = isinstance(a, (ast.Subscript,)) or (isinstance(a, ast.Call) and call_attr(a) in ('get', 'pop', '__getitem__'))
         ok = guarded_or or guarded_if or guarded_try or guarded_stmt
         if not ok and not raw:
